@@ -174,6 +174,13 @@ impl Parser for Markdown {
                 traversed_bytes = range.start;
             }
 
+            // The characters of the source this event stands for. An event's own text can be
+            // longer (a tab expanded to spaces) or shorter (an inline code span without its
+            // backticks), so tokens that merely cover the event are sized by this.
+            let range_chars = source_str[traversed_bytes.min(range.end)..range.end]
+                .chars()
+                .count();
+
             match event {
                 pulldown_cmark::Event::SoftBreak => {
                     tokens.push(Token {
@@ -216,13 +223,11 @@ impl Parser for Markdown {
                 pulldown_cmark::Event::End(_) => {
                     stack.pop();
                 }
-                pulldown_cmark::Event::InlineMath(code)
-                | pulldown_cmark::Event::DisplayMath(code)
-                | pulldown_cmark::Event::Code(code) => {
-                    let chunk_len = code.chars().count();
-
+                pulldown_cmark::Event::InlineMath(_)
+                | pulldown_cmark::Event::DisplayMath(_)
+                | pulldown_cmark::Event::Code(_) => {
                     tokens.push(Token {
-                        span: Span::new_with_len(traversed_chars, chunk_len),
+                        span: Span::new_with_len(traversed_chars, range_chars),
                         kind: TokenKind::Unlintable,
                     });
                 }
@@ -234,14 +239,14 @@ impl Parser for Markdown {
 
                         if matches!(tag, Tag::CodeBlock(..)) {
                             tokens.push(Token {
-                                span: Span::new_with_len(traversed_chars, text.chars().count()),
+                                span: Span::new_with_len(traversed_chars, range_chars),
                                 kind: TokenKind::Unlintable,
                             });
                             continue;
                         }
                         if matches!(tag, Tag::Link { .. }) && self.options.ignore_link_title {
                             tokens.push(Token {
-                                span: Span::new_with_len(traversed_chars, text.chars().count()),
+                                span: Span::new_with_len(traversed_chars, range_chars),
                                 kind: TokenKind::Unlintable,
                             });
                             continue;
@@ -271,9 +276,8 @@ impl Parser for Markdown {
                 // TODO: Support via `harper-html`
                 pulldown_cmark::Event::Html(_content)
                 | pulldown_cmark::Event::InlineHtml(_content) => {
-                    let size = _content.chars().count();
                     tokens.push(Token {
-                        span: Span::new_with_len(traversed_chars, size),
+                        span: Span::new_with_len(traversed_chars, range_chars),
                         kind: TokenKind::Unlintable,
                     });
                 }
